@@ -15,7 +15,9 @@ META = {
             "list->string/vector->string/string->vector/case conversions build new objects with the specified contents, "
             "list->string rejects improper lists; the n-ary string and char predicates (incl. -ci, parametric in the "
             "case table) are conjunctions over adjacent pairs of the code-point lexicographic comparison with no short "
-            "circuit; integer->char accepts exactly the scalar values (surrogates, > 0x10FFFF, negatives are errors) and "
+            "circuit, and that comparison is proved to be the bytewise comparison of the UTF-8 (RFC 3629) encodings "
+            "Rust performs (UTF-8 order preservation, for all texts), with the model's byte offsets, slices and "
+            "panic conditions restated and proved over the encoded bytes; integer->char accepts exactly the scalar values (surrogates, > 0x10FFFF, negatives are errors) and "
             "inverts char->integer. The model is tied to the Rust code by random operation sequences (2-4 setup + up "
             "to 10 operations over strings mixing 1-4 byte characters and empty strings, indices -1..len+1 and beyond, "
             "fill/set characters of every width, integers across the surrogate range) executed as Scheme text in a "
@@ -23,13 +25,29 @@ META = {
             "against a reference store in which a string is an array of scalar values (property oracle). Unicode case "
             "mapping and character classes are an oracle table computed by the harness with Rust's own char methods.",
     "note": "Trusted: Lean kernel; axioms propext, Classical.choice, Quot.sound; hand-written model tied to the code by "
-            "differential testing only; Rust's bytewise `str` ordering is modelled as code-point lexicographic order "
-            "(the two coincide for valid UTF-8; exercised by the correspondence, not proved); `str::to_lowercase` is "
+            "differential testing only; Rust's bytewise `str` ordering is modelled as code-point lexicographic order, "
+            "and that the two coincide is now a THEOREM, not an observation: with Utf8.encode defined per RFC 3629 "
+            "(proved equal, byte for byte, to Lean's own String.utf8EncodeChar, every byte < 256: utf8_encode_is_core) "
+            "the encoding of a character is injective and prefix-free, characters are ordered as their encodings "
+            "(utf8_encode_injective, utf8_encode_prefix_free, utf8_char_order), and for all texts the lexicographic "
+            "comparison of the encoded byte strings equals the comparison by code points (utf8_order, utf8_order_rel "
+            "for < = <=; utf8_order_core states it with core Lean's String.utf8EncodeChar and List UInt8 only), hence the model's cmpText is the bytewise comparison of the encodings and each of "
+            "string=? string<? string>? string<=? string>=? (and -ci on the folded images) decides the bytewise "
+            "relation (cmpText_bytewise, cmpOp_bytewise, stringComp_bytewise); the model's byte offsets are lengths "
+            "of encoded prefixes (utf8_encode_length, utf8_byteLen, nthOffset_eq_encoded, charOffset_eq_encoded, "
+            "charOffsetInclusive_eq_encoded) and its slicing/patching succeeds exactly where both offsets pass "
+            "str::is_char_boundary on the bytes (not a continuation byte 10xxxxxx, or the end) and then acts on the "
+            "bytes as &s[a..b] / replace_range do (strSlice_on_bytes, replaceRange_on_bytes). What remains trusted "
+            "here: that Rust's String holds exactly these bytes and that `str: Ord` is the lexicographic order of "
+            "the bytes (both documented guarantees of std, exercised by the correspondence); `str::to_lowercase` is "
             "modelled per character, its context-sensitive treatment of capital sigma is not modelled and U+03A3/σ/ς are "
             "never generated; case mapping/character classes are parameters of the theorems and an oracle table in the "
             "correspondence (so agreement with the Unicode standard itself is not claimed); string->list is covered "
             "for its character selection (substring theorem) and by correspondence for the list it builds; char "
-            "predicates/char-upcase etc. are table lookups (theorem: the ASCII fast path agrees with the table); "
+            "predicates/char-upcase etc. are table lookups; the ASCII fast path is closed both ways: it agrees with the simple "
+            "case mapping of any table that maps ASCII letters to their ASCII counterparts (charUpcase_eq_simple, "
+            "charFoldcase_eq_simple) and, with no assumption on the table, equals Lean's own ASCII-only "
+            "Char.toUpper / Char.toLower (charUpcase_ascii, charFoldcase_ascii); "
             "make-string beyond isize::MAX bytes is a modelled capacity-overflow panic and is not generated; optional "
             "ranges of string->vector/vector->string and string-copy! are not implemented by marwood and not generated.",
     "technique": "Lean 4 proof (UTF-8 byte-offset model = character-indexed List Char specification, for all strings "
@@ -44,7 +62,10 @@ stringLength_ok stringRef_ok stringRef_err_range stringRef_err_index stringSet_o
 stringRef_stringSet stringCopy_ok stringCopy_err stringFill_ok stringFill_err makeString_ok string_ok
 stringAppend_ok stringComp_ok charComp_ok popString_err listToString_ok listToString_err vectorToString_ok
 stringToVector_ok stringCase_ok integerToChar_ok integerToChar_err charToInteger_ok integerToChar_charToInteger
-charUpcase_eq_simple charFoldcase_eq_simple""".split()]
+charUpcase_eq_simple charFoldcase_eq_simple charUpcase_ascii charFoldcase_ascii
+utf8_encode_injective utf8_encode_prefix_free utf8_char_order utf8_encode_length utf8_byteLen utf8_encode_is_core
+utf8_order utf8_order_rel utf8_order_core cmpText_bytewise cmpOp_bytewise stringComp_bytewise nthOffset_eq_encoded
+charOffset_eq_encoded charOffsetInclusive_eq_encoded strSlice_on_bytes replaceRange_on_bytes""".split()]
 
 
 def nontrivial(req, impl):
